@@ -62,7 +62,9 @@ def run(pid, tier):
     docs += [(os.path.relpath(p, impl.REPO), corpus.read(p)) for p in corpus.sample(corpus.rule_docs(), n_cor, seed())]
     docs += [(os.path.relpath(p, impl.REPO), corpus.read(p)) for p in corpus.sample(corpus.project_docs(), 20 if tier == "quick" else 86, seed())]
     docs += [(n, t.encode("utf-8")) for n, t in docgen.documents(n_gen, seed())]
-    docs += [(n, t.encode("utf-8")) for n, t in docgen.systematic(seed(), 700 if tier == "quick" else docgen.SYS_POOL)]
+    sys_all = [(n, t.encode("utf-8")) for n, t in docgen.systematic(seed(), docgen.SYS_POOL)]
+    sys_pick = {n for n, _t in docgen.systematic(seed(), 700 if tier == "quick" else docgen.SYS_POOL)}
+    docs += sys_all          # quick: the whole systematic pool under "all rules"; the rotation of single rules on a subset
     rnd = random.Random(seed())
     jobs = []
     for k, (name, data) in enumerate(docs):
@@ -71,6 +73,8 @@ def run(pid, tier):
         per = 6 if tier == "quick" else 46
         base = int(__import__("hashlib").sha1(name.encode()).hexdigest()[:6], 16)
         mine = cfgs[:2] + [single[(base + j * 7) % len(single)] for j in range(per)]
+        if name.startswith("sys/") and name not in sys_pick:
+            mine = cfgs[1:2]
         jobs.append((name, data, mine))
     res = impl.pmap(_scan, jobs, procs=16, chunksize=2)
     traces, meta = [], []
